@@ -1070,6 +1070,13 @@ fn gen_c12(rng: &mut Rng, ctx: &mut Ctx, rep: &mut Report, emit: Emit) {
             if rng.chance(1, 8) { b.primary.fragmentation_offset = rng.u64b(); b.primary.total_data_length = 1 + rng.u64b() / 2; }
             if rng.chance(9, 10) && b.primary.report_to == EndpointID::none() { b.primary.report_to = EndpointID::with_dtn("rpt/x").unwrap(); }
             if rng.chance(1, 2) { b.primary.bundle_control_flags |= 0x40; }
+            // long endpoint names (the record that refers to the subject has no bounded size): subject source,
+            // report-to and reporting node of 200 .. 5000 bytes
+            if rng.chance(1, 12) {
+                let name = |rng: &mut Rng| -> EndpointID { let n = *rng.pick(&[200usize, 230, 260, 300, 321, 1_000, 5_000]); let s: String = (0..n).map(|i| (b'a' + ((i * 7 + n) % 26) as u8) as char).collect(); EndpointID::with_dtn(&format!("{}/{}", &s[..n / 2], &s[n / 2..])).unwrap() };
+                b.primary.source = name(rng);
+                if rng.chance(1, 2) { b.primary.report_to = name(rng); }
+            }
             let src = loop { let e = gen_eid_wf(rng); if e != EndpointID::none() { break e; } };
             clock += 1 + rng.below(100_000);
             let now = clock;
